@@ -256,7 +256,28 @@ pub fn draw_script(rng: &mut Rng, cfg: &RunCfg, profile: &str) -> Vec<J> {
         return Vec::new();
     }
     let mut v: Vec<J> = Vec::new();
-    match rng.below(3) {
+    match rng.below(4) {
+        // a split BytesMut, unique again, whose length is brought back to exactly what it was when
+        // the buffer was promoted (stale bookkeeping in the control block), then frozen and converted
+        3 => {
+            let c = *rng.pick(&[64usize, 200, 1024]);
+            let a = rng.range(4, 30);
+            let k = if rng.chance(1, 4) { 0 } else { rng.range(1, a - 1) };
+            v.push(J::obj().set("op", "m_with_cap").set("n", c));
+            v.push(J::obj().set("op", "extend_from_slice").set("h", 0usize).set("seed", rng.next_u64()).set("n", a));
+            v.push(J::obj().set("op", "m_split_to").set("h", 0usize).set("at", k));
+            v.push(J::obj().set("op", "drop").set("h", 8usize));
+            let e = if k > 0 { k } else { rng.range(1, 9) };
+            v.push(J::obj().set("op", "extend_from_slice").set("h", 0usize).set("seed", rng.next_u64()).set("n", e));
+            v.push(J::obj().set("op", "freeze").set("h", 0usize).set("via", rng.below(2)));
+            if k == 0 {
+                // the offset is produced on the Bytes side instead
+                v.push(J::obj().set("op", "clone").set("h", 20usize));
+                v.push(J::obj().set("op", "advance").set("h", 20usize).set("n", e));
+                v.push(J::obj().set("op", "drop").set("h", 24usize));
+            }
+            v.push(J::obj().set("op", *rng.pick(&["b_into_vec", "b_into_vec", "b_into_mut", "try_into_mut"])).set("h", 20usize));
+        }
         // two independent buffers, each already split (shared representation), the tail piece of
         // the first directly followed in memory by the head piece of the second (packed placement)
         0 if cfg.parity == alloc::Parity::Packed => {
@@ -363,7 +384,8 @@ impl<'a> Gen<'a> {
                     "inline" => rng.range(0, 24),
                     _ => pick_size(rng, cfg).min(STATIC_LEN),
                 };
-                o.set("kind", kind).set("seed", rng.next_u64()).set("n", n).set("panic", rng.chance(1, 12))
+                let pan = rng.chance(1, 12);
+                o.set("kind", kind).set("seed", rng.next_u64()).set("n", n).set("panic", pan).set("drop_panic", !pan && rng.chance(1, 8))
             }
             "m_with_cap" | "m_zeroed" => o.set("n", pick_size(rng, cfg)),
             "clone" => {
@@ -538,7 +560,12 @@ impl<'a> Gen<'a> {
             }
             "extend_from_slice" => {
                 let h = *rng.pick(ms.get(..).filter(|v| !v.is_empty())?);
-                o.set("h", h).set("seed", rng.next_u64()).set("n", pick_size(rng, cfg))
+                // 1 in 3: append exactly what brings the handle back to a length or capacity seen before
+                // (on any handle, alive or gone) - stale bookkeeping likes such coincidences
+                let len = w.slots[&h].view().len;
+                let back: Vec<usize> = w.recent_lens.iter().copied().filter(|&t| t > len && t - len <= 4096).collect();
+                let n = if !back.is_empty() && rng.chance(1, 3) { *rng.pick(&back) - len } else { pick_size(rng, cfg) };
+                o.set("h", h).set("seed", rng.next_u64()).set("n", n)
             }
             "put_int" => {
                 let h = *rng.pick(ms.get(..).filter(|v| !v.is_empty())?);
@@ -625,6 +652,15 @@ pub struct SimOwner {
     pub data: OwnerData,
     pub stats: Arc<OwnerStats>,
     pub panic_in_as_ref: bool,
+    /// the owner's destructor panics (once, and never while already unwinding)
+    pub panic_in_drop: bool,
+}
+pub const OWNER_DROP_PANIC: &str = "SimOwner: drop told to panic";
+
+/// A panic that is the owner's own destructor panicking in the operation that released it:
+/// user code failing, to be survived by the crate like any other.
+fn owner_drop_panic(w: &World, origin: Origin, msg: &str) -> bool {
+    msg.contains(OWNER_DROP_PANIC) && matches!(origin, Origin::Owner(oi) if w.owners[oi].drop_panics)
 }
 impl AsRef<[u8]> for SimOwner {
     fn as_ref(&self) -> &[u8] {
@@ -641,7 +677,10 @@ impl AsRef<[u8]> for SimOwner {
 }
 impl Drop for SimOwner {
     fn drop(&mut self) {
-        self.stats.drops.fetch_add(1, Ordering::SeqCst);
+        let before = self.stats.drops.fetch_add(1, Ordering::SeqCst);
+        if self.panic_in_drop && before == 0 && !std::thread::panicking() {
+            panic!("{}", OWNER_DROP_PANIC);
+        }
     }
 }
 
@@ -896,9 +935,10 @@ pub fn exec(w: &mut World, op: &J) -> StepOut {
             let kind = op.str("kind").unwrap_or("heap").to_string();
             let n = op.us("n");
             let pan = op.boolean("panic");
+            let dpan = op.boolean("drop_panic") && !pan;
             let stats = Arc::new(OwnerStats { as_ref: AtomicUsize::new(0), drops: AtomicUsize::new(0) });
             let oi = w.owners.len();
-            w.owners.push(OwnerRec { stats: stats.clone(), panicked: pan, lying: false });
+            w.owners.push(OwnerRec { stats: stats.clone(), panicked: pan, lying: false, drop_panics: dpan });
             let data = content(op.u64("seed"), n.min(1 << 20));
             let model: Vec<u8> = match kind.as_str() {
                 "inline" => data[..n.min(24)].to_vec(),
@@ -925,7 +965,7 @@ pub fn exec(w: &mut World, op: &J) -> StepOut {
                     }
                     _ => OwnerData::Heap(data.to_vec()),
                 };
-                Bytes::from_owner(SimOwner { data: od, stats, panic_in_as_ref: pan })
+                Bytes::from_owner(SimOwner { data: od, stats, panic_in_as_ref: pan, panic_in_drop: dpan })
             });
             let ev = alloc::take_events();
             match out {
@@ -1281,6 +1321,10 @@ pub fn exec(w: &mut World, op: &J) -> StepOut {
                         w.v(&["C01"], "size_hint:into_iter", format!("h{}.into_iter(): size_hint {:?} then {:?}, len {} k {}", h, hint, hint2, len, k));
                     }
                 }
+                Out::Panic(m) if owner_drop_panic(w, s.origin, &m) => {
+                    so.outcome = "panic-in-owner-drop";
+                    w.probes.hit("owner_drop_panic");
+                }
                 Out::Panic(m) => w.v(&["C01"], "unexpected-panic", format!("h{}.into_iter() panicked: {}", h, m)),
             }
         }
@@ -1330,6 +1374,11 @@ pub fn exec(w: &mut World, op: &J) -> StepOut {
                     }
                     w.slots.insert(h, Slot { real: Real::B(b), model, origin });
                 }
+                Out::Panic(m) if owner_drop_panic(w, origin, &m) => {
+                    // the conversion copied the bytes out and released the owner, whose destructor panicked
+                    so.outcome = "panic-in-owner-drop";
+                    w.probes.hit("owner_drop_panic");
+                }
                 Out::Panic(m) => w.v(&["C01"], "unexpected-panic", format!("h{}.{} panicked: {}", h, name, m)),
             }
         }
@@ -1343,6 +1392,7 @@ pub fn exec(w: &mut World, op: &J) -> StepOut {
                 None => return skip,
             };
             let model = s.model;
+            let origin = s.origin;
             let out = match s.real {
                 Real::B(b) => run(move || Vec::from(b)),
                 Real::M(m) => run(move || Vec::from(m)),
@@ -1362,6 +1412,10 @@ pub fn exec(w: &mut World, op: &J) -> StepOut {
                     } else {
                         w.slots.insert(nid(uid, 0), Slot { real: Real::V(v), model, origin: Origin::Heap });
                     }
+                }
+                Out::Panic(m) if owner_drop_panic(w, origin, &m) => {
+                    so.outcome = "panic-in-owner-drop";
+                    w.probes.hit("owner_drop_panic");
                 }
                 Out::Panic(m) => w.v(&["C01"], "unexpected-panic", format!("Vec::from(h{}) panicked: {}", h, m)),
             }
@@ -1411,8 +1465,14 @@ pub fn exec(w: &mut World, op: &J) -> StepOut {
                 Some(s) => s,
                 None => return skip,
             };
+            let origin = s.origin;
             if let Out::Panic(m) = run(move || drop(s)) {
-                w.v(&["C01", "C03"], "unexpected-panic", format!("drop(h{}) panicked: {}", h, m));
+                if owner_drop_panic(w, origin, &m) {
+                    so.outcome = "panic-in-owner-drop";
+                    w.probes.hit("owner_drop_panic");
+                } else {
+                    w.v(&["C01", "C03"], "unexpected-panic", format!("drop(h{}) panicked: {}", h, m));
+                }
             }
         }
 
